@@ -174,6 +174,8 @@ def main():
         print("baseline harness build failed\n", out)
         sys.exit(2)
     allids = ["C%02d" % i for i in range(1, 20)]
+    if "--seeded" in args:
+        return seeded_matrix(allids)
     results = {}
     resfile = os.path.join(ROOT, "selftest", "mutants_results.json")
     os.makedirs(os.path.dirname(resfile), exist_ok=True)
@@ -217,6 +219,45 @@ def main():
             open(path, "w").write(src)
             json.dump(results, open(resfile, "w"), indent=1)
     if "--keep" not in args:
+        sh(f"git -C /repo worktree remove --force {REPO}")
+        shutil.rmtree(SCRATCH, ignore_errors=True)
+
+
+def seeded_matrix(allids):
+    """apply every seeded/<id>/patch.diff in the scratch worktree and run ALL checks: which check catches which change"""
+    resfile = os.path.join(ROOT, "selftest", "seeded_matrix.json")
+    os.makedirs(os.path.dirname(resfile), exist_ok=True)
+    out = {}
+    sdir = os.path.join(ROOT, "seeded")
+    for sid in sorted(os.listdir(sdir)):
+        patch = os.path.join(sdir, sid, "patch.diff")
+        if not os.path.exists(patch):
+            continue
+        sh("git checkout -- .", cwd=REPO)
+        r = sh(f"git apply {patch}", cwd=REPO)
+        if r.returncode != 0:
+            out[sid] = {"status": "patch-does-not-apply"}
+            continue
+        try:
+            ok, log = build()
+            if not ok:
+                out[sid] = {"status": "does-not-compile"}
+                continue
+            res = {"status": "ran", "caught_by": {}, "missed_by": [], "inconclusive": []}
+            for pid in allids:
+                code, sigs, so = run_check(pid)
+                if code == 1:
+                    res["caught_by"][pid] = sigs[:3]
+                elif code == 0:
+                    res["missed_by"].append(pid)
+                else:
+                    res["inconclusive"].append(pid)
+            out[sid] = res
+            print(f"[{sid}] caught_by={list(res['caught_by'].keys())} inconclusive={res['inconclusive']}", flush=True)
+        finally:
+            sh("git checkout -- .", cwd=REPO)
+            json.dump(out, open(resfile, "w"), indent=1)
+    if "--keep" not in sys.argv:
         sh(f"git -C /repo worktree remove --force {REPO}")
         shutil.rmtree(SCRATCH, ignore_errors=True)
 
